@@ -1036,7 +1036,7 @@ func TestC37SQL(t *testing.T) {
 	} else if kit.ReplayMode() {
 		t.Skip()
 	}
-	kit.SetChecks(1_500, 12_000)
+	kit.SetChecks(1_200, 10_000)
 	rapid.Check(t, func(rt *rapid.T) {
 		c := genC37(rt, s)
 		runC37(s, rt, c, false)
@@ -1096,7 +1096,7 @@ func TestC37Deadline(t *testing.T) {
 	} else if kit.ReplayMode() {
 		t.Skip()
 	}
-	kit.SetChecks(250, 2_000)
+	kit.SetChecks(200, 1_600)
 	rapid.Check(t, func(rt *rapid.T) {
 		c := c37Case{Template: 1}
 		n := rapid.IntRange(1, 3).Draw(rt, "n")
